@@ -186,3 +186,7 @@ impl Drop for Writing {
         })
     }
 }
+
+#[cfg(loom_verif)]
+#[path = "/verif/hooks/cell_verif.rs"]
+pub(crate) mod verif;
